@@ -104,6 +104,12 @@ _X: t.Dict[str, t.Any] = {}
 
 
 def _work(job: U.Job) -> evid.Local:
+    # a library call that never returns is reported (CallDoesNotReturn), it does not hang the check
+    with K.watchdog():
+        return _work_cases(job)
+
+
+def _work_cases(job: U.Job) -> evid.Local:
     loc = evid.Local()
     ks = _X["kinds"]
     first = True
